@@ -621,9 +621,22 @@ func crashKey(logs string) (string, bool) {
 	ms := frameRe.FindAllStringSubmatch(sect, -1)
 	first := ""
 	nonHarness := 0
+	// A frame is harness code when its function is named so or when the source line that
+	// follows it in the trace is a harness file (zz_verif_* overlaid into the package
+	// directory, or anything under /verif): helper functions carry short prefixes (vlp, vsrv,
+	// c21 ...) that do not say "verif".
+	lines := strings.Split(sect, "\n")
+	harnessFn := map[string]bool{}
+	for i, ln := range lines {
+		if m := frameRe.FindStringSubmatch(ln); m != nil && i+1 < len(lines) {
+			if strings.Contains(lines[i+1], "zz_verif") || strings.Contains(lines[i+1], "/verif/") {
+				harnessFn[m[1]] = true
+			}
+		}
+	}
 	for _, m := range ms {
 		fn := m[1]
-		if strings.Contains(fn, "verif") || strings.Contains(fn, "Verif") {
+		if strings.Contains(fn, "verif") || strings.Contains(fn, "Verif") || harnessFn[fn] {
 			continue
 		}
 		nonHarness++
